@@ -124,6 +124,12 @@ struct Ev
   int d1, r1, d2, r2, t;
 };
 
+inline int
+dj_span(const json& c, int nseg)
+{
+  return c["pdi"]["span"].get<int>() * nseg;
+}
+
 std::string
 tmp_dir()
 {
@@ -276,9 +282,66 @@ check_ssrb(const json& c)
   else
     VF_CHECK(!pout->is_tof_data(), "non-TOF input gives TOF output");
 
-  // ---- the list of detector pairs and its two histograms ---------------------------------------
   const int ndet = sc->get_num_detectors_per_ring();
   const int rings = sc->get_num_rings();
+
+  // ---- audit H: the coarse sampling as the HARNESS states it (not as SSRB(ProjDataInfo) reports it) ------------------------
+  // "histogramming at the coarse sampling": combining nseg (odd) complete segments of span s gives the segments of span s*nseg,
+  // combining views gives views/nviews views, the tangential range is the documented one, TOF mashing is multiplied.  That
+  // sampling is constructed directly from the scanner with ProjDataInfo::construct_proj_data_info; the output geometry of SSRB
+  // must have its ranges, and every detector pair of the list must get the same bin from both (checked in the loop below).
+  shared_ptr<ProjDataInfo> direct_pdi;
+  {
+    const int span_out = c["pdi"]["span"].get<int>() * nseg;
+    json dj;
+    dj["span"] = span_out;
+    dj["max_delta"] = (span_out - 1) / 2 + span_out * want_out_max_seg;
+    dj["views"] = in_pdi->get_num_views() / nviews;
+    dj["tang"] = in_pdi->get_num_tangential_poss() - trim;
+    dj["arccorr"] = false;
+    dj["tof_mash"] = tof ? f_in * ntof : 0;
+    dj["trim"] = json::object();
+    try
+      {
+        AssertsOff guard(asserts_off_for_tof);
+        direct_pdi = vg::make_pdi(sc, dj);
+      }
+    catch (const std::runtime_error&)
+      { // e.g. more tangential positions than the scanner allows (negative trim with VERIF_NO_EXCLUDE=1)
+        stats().cls("ssrb: coarse sampling cannot be constructed directly (not compared)");
+      }
+  }
+  const auto* pdirect = dynamic_cast<const ProjDataInfoCylindricalNoArcCorr*>(direct_pdi.get());
+  if (pdirect)
+    {
+      stats().cls("ssrb: output geometry compared with the directly constructed coarse sampling");
+      VF_CHECK(pdirect->get_min_segment_num() == pout->get_min_segment_num() && pdirect->get_max_segment_num() == pout->get_max_segment_num(),
+               "SSRB output segments (", pout->get_min_segment_num(), ",", pout->get_max_segment_num(), ") but the sampling of span ", dj_span(c, nseg),
+               " constructed directly has (", pdirect->get_min_segment_num(), ",", pdirect->get_max_segment_num(), ")");
+      for (int so = pout->get_min_segment_num(); so <= pout->get_max_segment_num(); ++so)
+        {
+          VF_CHECK(pout->get_min_ring_difference(so) == pdirect->get_min_ring_difference(so)
+                       && pout->get_max_ring_difference(so) == pdirect->get_max_ring_difference(so),
+                   "SSRB output segment ", so, " holds ring differences (", pout->get_min_ring_difference(so), ",", pout->get_max_ring_difference(so),
+                   ") but combining ", nseg, " segments of span ", c["pdi"]["span"].get<int>(), " gives (", pdirect->get_min_ring_difference(so), ",",
+                   pdirect->get_max_ring_difference(so), ")");
+          // own count: distinct axial midpoints r1+r2 of the ring pairs of the segment
+          std::set<int> mids;
+          for (int r1 = 0; r1 < rings; ++r1)
+            for (int r2 = 0; r2 < rings; ++r2)
+              if (r2 - r1 >= pdirect->get_min_ring_difference(so) && r2 - r1 <= pdirect->get_max_ring_difference(so))
+                mids.insert(r1 + r2);
+          VF_CHECK(pout->get_min_axial_pos_num(so) == 0 && pout->get_num_axial_poss(so) == int(mids.size())
+                       && pdirect->get_num_axial_poss(so) == int(mids.size()),
+                   "SSRB output segment ", so, " has axial positions ", pout->get_min_axial_pos_num(so), "..", pout->get_max_axial_pos_num(so), " but its ring pairs have ",
+                   mids.size(), " distinct axial midpoints (directly constructed sampling: ", pdirect->get_num_axial_poss(so), ")");
+        }
+      VF_CHECK(pdirect->get_min_tof_pos_num() == pout->get_min_tof_pos_num() && pdirect->get_max_tof_pos_num() == pout->get_max_tof_pos_num(),
+               "SSRB output TOF range (", pout->get_min_tof_pos_num(), ",", pout->get_max_tof_pos_num(), ") but the directly constructed sampling has (",
+               pdirect->get_min_tof_pos_num(), ",", pdirect->get_max_tof_pos_num(), ")");
+    }
+
+  // ---- the list of detector pairs and its two histograms ---------------------------------------
   const int N = sc->get_max_num_timing_poss();
   const int tmin = tof ? -(N / 2) - 1 : -2, tmax = tof ? N / 2 + 1 : 2;
   const long n_events = c["n_events"];
@@ -302,6 +365,14 @@ check_ssrb(const json& c)
       ++n_in;
       ++h_in[key(bi)];
       const bool has_out = pout->get_bin_for_det_pos_pair(bo, dp) == Succeeded::yes && in_range(*pout, bo);
+      if (pdirect)
+        { // audit H: the bin of the pair at the coarse sampling, from the harness's own statement of that sampling
+          Bin bd;
+          const bool has_direct = pdirect->get_bin_for_det_pos_pair(bd, dp) == Succeeded::yes && in_range(*pdirect, bd);
+          VF_CHECK(has_direct == has_out && (!has_out || key(bd) == key(bo)), "detector pair (det ", ev.d1, ", ring ", ev.r1, ")-(det ", ev.d2, ", ring ", ev.r2,
+                   "), t=", ev.t, ": the output geometry of SSRB assigns ", has_out ? show(key(bo)) : std::string("no bin"),
+                   ", the directly constructed coarse sampling ", has_direct ? show(key(bd)) : std::string("no bin"));
+        }
       if (has_out)
         {
           ++n_out;
@@ -356,6 +427,45 @@ check_ssrb(const json& c)
       return r;
   }
   VF_CHECK(total == double(n_out), "total output counts ", total, " != counts of the list with an output bin ", n_out, " (input total ", n_in, ")");
+
+  // ---- audit H: an output object whose geometry the CALLER made: SSRB's sampling with a reduced, possibly non-symmetric segment
+  //      range and tangential range (SSRB(ProjData& out, const ProjData& in, bool): "out_proj_data ... its projection data info
+  //      is used to determine output characteristics"); every output bin still holds the pairs its geometry assigns to it
+  if (c.contains("out_restrict") && c["out_restrict"].is_array() && c["out_restrict"].size() == 4)
+    {
+      const json& R = c["out_restrict"];
+      shared_ptr<ProjDataInfo> r_pdi(out_pdi->clone());
+      const int ms = out_pdi->get_max_segment_num();
+      // segment 0 stays (ProjData's standard segment order starts with it)
+      const int slo = -int(R[0].get<long>() % (ms + 1)), shi = int(R[1].get<long>() % (ms + 1));
+      r_pdi->reduce_segment_range(slo, shi);
+      const int nt = out_pdi->get_num_tangential_poss();
+      int cut_lo = int(R[2].get<long>() % 3), cut_hi = int(R[3].get<long>() % 3);
+      if (cut_lo + cut_hi >= nt)
+        cut_lo = cut_hi = 0;
+      r_pdi->set_min_tangential_pos_num(out_pdi->get_min_tangential_pos_num() + cut_lo);
+      r_pdi->set_max_tangential_pos_num(out_pdi->get_max_tangential_pos_num() - cut_hi);
+      stats().cls("ssrb: caller-made output geometry");
+      if (slo != -shi)
+        stats().cls("ssrb: caller-made output geometry with a non-symmetric segment range");
+      if (slo != -ms || shi != ms)
+        stats().cls("ssrb: caller-made output geometry with fewer segments");
+      if (cut_lo != cut_hi)
+        stats().cls("ssrb: caller-made output geometry with a non-symmetric tangential range");
+      std::map<BinKey, int> h_r;
+      for (auto& kv : h_out)
+        if (in_range(*r_pdi, Bin(std::get<0>(kv.first), std::get<2>(kv.first), std::get<1>(kv.first), std::get<3>(kv.first), std::get<4>(kv.first))))
+          h_r.insert(kv);
+      ProjDataInMemory r_data(exam, r_pdi);
+      r_data.fill(3.F);
+      SSRB(r_data, in_data, false);
+      double total_r = 0;
+      const Result r = compare_exact(r_data, h_r, cat("SSRB(do_norm=false) into a caller-made output (segments ", slo, "..", shi, ", tangential positions ",
+                                                      r_pdi->get_min_tangential_pos_num(), "..", r_pdi->get_max_tangential_pos_num(), ")"),
+                                     total_r);
+      if (r.failed())
+        return r;
+    }
 
   // ---- SSRB with normalisation -----------------------------------------------------------------
   // number of input sinograms (ignoring TOF) that contribute to an output sinogram, from the ring-pair tables
@@ -1433,6 +1543,14 @@ gen_ssrb(Src& s, int size)
   c["n_events"] = s.pick(std::vector<long>{ 1, 5, 40, 300, 300, 2000, 2000 });
   c["events_seed"] = s.seed64();
   c["use_file"] = s.chance(1, 6);
+  {
+    // audit H: an output object with a geometry of the caller (interpreted modulo the output's ranges); more often when the
+    // output has oblique segments, so that reduced and non-symmetric segment ranges are not rare
+    const int k = c["nseg"].get<int>();
+    const int out_ms = eff >= k / 2 ? (eff - k / 2) / k : 0;
+    if (out_ms >= 1 ? s.chance(3, 4) : s.chance(1, 5))
+      c["out_restrict"] = json::array({ s.range(0, 6), s.range(0, 6), s.range(0, 2), s.range(0, 2) });
+  }
   return c;
 }
 
